@@ -4,6 +4,7 @@ from .c02 import VS
 from .c05 import SPLIT, STQ
 from utpsa.bounds import Bounds, fmt as fmt_ub, TOP
 from utpsa.wake import variant_of_edge
+from utpsa.flow import controlling_edges, describe_cond
 
 SS = "mtu::SegmentSizes"
 GHOST = ("ghost", "link-ceiling")
@@ -756,3 +757,26 @@ def c14_10(R):
                            "SegmentSizes::new computes %s = MTU %s for IPv4 and MTU %s for IPv6 (expected -48 / -68): segments to peers of that family are larger than the configured link MTU allows"
                            % (fld, v[1].get(True) if v else "?", v[1].get(False) if v else "?"), where=s.where(), instance="headers-of-the-family")
     R.floor("size fields initialised in SegmentSizes::new", n, 2)
+
+
+@rule("C14.11", ["C14", "C18", "C02"], ["E3"], "only a probe that is still undelivered holds segmentation back",
+      "split_tx_queue_into_segments returns without segmenting when Segments::pop_expired_mtu_probe answers NotExpired (a probe is in flight and its fate decides the next size). "
+      "That answer is therefore given only for a newest segment that is an MTU probe AND has not been delivered: a probe that was (selectively) acknowledged has done its job, and "
+      "waiting for it would hold all buffered data back until an unrelated hole is repaired - with Nagle disabled as well.")
+def c14_11(R):
+    px = R.body("stream_tx_segments::Segments::pop_expired_mtu_probe")
+    n = 0
+    for it, cls in ret_assignments(px):
+        if not cls.startswith("NotExpired"):
+            continue
+        n += 1
+        conds = [describe_cond(px, t, lab) for t, tgt, lab in controlling_edges(px, it.bb)]
+        probe = any(("is_mtu_probe" in c or "tuple.1" in c) and c.endswith("=true") for c in conds)
+        undeliv = any("Segment.is_delivered" in c and c.endswith("=false") for c in conds)
+        if probe and undeliv:
+            R.ok("NotExpired=>undelivered-probe", px.name, "answer given under is_mtu_probe && !is_delivered")
+        else:
+            R.fail([px.name, "NotExpired-not-under(is_mtu_probe&&!is_delivered)", "guards=" + ",".join(sorted(conds))],
+                   "pop_expired_mtu_probe answers NotExpired for a segment that is not an undelivered probe: segmentation of buffered data waits for a probe that needs no waiting for",
+                   where=it.where(), instance="NotExpired=>undelivered-probe")
+    R.floor("NotExpired answers in pop_expired_mtu_probe", n, 1)
